@@ -2,21 +2,33 @@
 
 Engine E2 (parts A, B, N) + engine E1 replay-mode BFS (part C, mc/props/c13_hist.py).
 
- A. every layout reachable from a master in every corpus deck: fresh open, `prs.slides.add_slide(layout)`, oracle.
+ A. every layout reachable from a master in every corpus deck: fresh open, `prs.slides.add_slide(layout)`, oracle;
+    then the same on a second fresh open after every placeholder of the layout has been renamed to the name of the
+    first one by public calls (`placeholder.name = first.name`): 2 evaluations per layout.
  B. generated layouts: the placeholder population of layouts of the default template is replaced harness-side
     (string templates + zipfile; mc/props/c13_gen.py) by every population of the closed-form spaces below;
     master variants 'template' (title, body, dt, ftr, sldNum present) and 'bare' (no master placeholder).
+    The NAMES of the layout's placeholders are a dimension of the populations: per member D (distinct 'Gen k') | S (one
+    shared literal) | E (empty) | G (the name the library generates for another clone of the population, e.g. 'Title 1')
+    | O (its own generated name, singles); populations of one: {E, O}; pairs: the 9 vectors SS EE GG DE ED DG GD EG GE
+    (every class of {D,S,E,G}^2 not equivalent to DD) x types^2 x orient vectors x idx vectors; triples (thorough):
+    SSS SSD SDS DSS x types^3. All other spaces carry distinct names (DD..).
  N. notes slides: `slide.notes_slide` on a new slide of every corpus deck (notes master of the deck, or the
-    default one python-pptx creates) and on generated notes-master populations (singles: 17 types x 2 orient x 4 idx
-    x 2 xfrm x 4 sz; ordered pairs over {sldImg, body, sldNum, hdr, dt, ftr}^2 x idx^2 (2 idx values | all 4) x xfrm^2).
+    default one python-pptx creates), the same again after the notes master's placeholders were renamed to one name by
+    public calls, and on generated notes-master populations (singles: 17 types x 2 orient x 4 idx x 2 xfrm x 4 sz;
+    ordered pairs over {sldImg, body, sldNum, hdr, dt, ftr}^2 x idx^2 (2 idx values | all 4) x xfrm^2; names: singles
+    17 x 2 orient x {E, O}, pairs 6^2 x 9 name vectors x 1 | 4 idx vectors).
  C. histories (BFS depth 3 | 4): add_slide(L) for three layouts, move / resize a placeholder, type text, notes,
-    save; every slide created so far is re-checked in every state, overridden attributes taken from the model.
+    save, rename (all placeholders of the three layouts | of the notes master get one name by public calls); every
+    slide created so far is re-checked in every state, overridden attributes taken from the model.
 
 Oracle (mc/props/c13_lib.py). The expected placeholder list is computed from the layout part's XML by a bare-lxml
 reader (p:sp|p:pic|p:graphicFrame children of the shape tree with p:nvPr/p:ph, document order, minus dt/ftr/sldNum;
 schema defaults type 'obj', idx 0, orient 'horz', sz 'full'). The slide part's XML (bare reading of `part.blob`)
 must show the same (type, idx, orient, sz) one-for-one in the same document order; `slide.shapes` /
-`slide.placeholders` / `placeholder_format` must agree; names pairwise distinct; each slide placeholder reports
+`slide.placeholders` / `placeholder_format` must agree; names pairwise distinct and non-empty (slides: rule 'names',
+notes slides: 'notes-names'; both in memory and after save + re-open, in parts A, B, N and in every state of C; the
+source's own names are never consulted by the oracle); each slide placeholder reports
 left/top/width/height = its layout counterpart's own a:xfrm numbers, else those of the first master placeholder
 of the base type (title/ctrTitle -> title; dt, ftr, sldNum -> same; otherwise body), else None; and (differential)
 what python-pptx reads for the layout placeholder itself; the slide is last, related to the layout, slide ids are
@@ -60,13 +72,21 @@ LEVEL = "model_checking"
 RULE = ("A: every (corpus deck, master, layout); non-trivial = layout with >= 1 non-latent placeholder, distinct by "
         "(deck, layout part). B: generated populations, closed forms in coverage.spaces (singles: 17 types x 2 orient x "
         "4 idx x 2 xfrm x 4 sz x 2 masters; pairs quick: 17^2 x 2^2 orient x 4 idx vectors x 2^2 xfrm; pairs thorough: 17^2 x 2^2 x "
-        "4^2 x 2^2 + 17^2 x 2^2 x 4 x 2^2 with sz (half,quarter) on the bare master; triples: 17^3 x 2 x 3 x 2); "
-        "non-trivial = population with >= 1 non-latent placeholder (distinct by construction). N: notes slide on every "
-        "corpus deck + generated notes-master populations; non-trivial = notes master with >= 1 cloned type. "
+        "4^2 x 2^2 + 17^2 x 2^2 x 4 x 2^2 with sz (half,quarter) on the bare master; triples: 17^3 x 2 x 3 x 2; "
+        "source-placeholder names: singles 17 x 2 orient x {E,O}; pairs quick 17^2 x 2 orient vectors x 1 idx vector x 9 name "
+        "vectors, thorough 17^2 x 2^2 x 4 idx vectors x 9; triples thorough 17^3 x 4 name vectors); "
+        "non-trivial = population with >= 1 non-latent placeholder (distinct by construction). A also evaluates every "
+        "corpus layout a second time with its placeholders renamed to one name by public calls. N: notes slide on every "
+        "corpus deck (as shipped + notes-master placeholders renamed to one name) + generated notes-master populations "
+        "(incl. name vectors: 17 x 2 x {E,O} singles, 6^2 x 9 x 1|4 idx vectors pairs); non-trivial = notes master with >= 1 cloned type. "
         "C: BFS over histories (replay mode), distinct canonical states; non-trivial = history with >= 2 operations.")
 ASSUMPTIONS = [
     "trusted: lxml parsing/c14n, zipfile, mc.oracles.opc_ref (relationship resolution), pml.xsd token list",
     "generated layouts: p:sp placeholders only; types from ST_PlaceholderType plus 'absent'; idx in {absent,0,1,10}",
+    "source-placeholder names: letters D/S/E/G/O as in mc/props/c13_gen.py; the 'G'/'O' literals come from a base-name table "
+    "that is input generation only (its hit rate against the library is coverage.generated_name_prediction, never a verdict); "
+    "name vectors are crossed with types (and orient) in full, with idx / xfrm / sz / master only at the points listed in RULE",
+    "an empty name on a slide / notes-slide placeholder counts as not uniquely named",
     "duplicate idx inside one layout: weaker reading (any layout placeholder with that idx)",
     "part C alphabet and depth as listed in coverage.alphabet / coverage.bfs",
     "notes base deck (slide + default notes master) is constructed with python-pptx, then edited harness-side",
@@ -171,13 +191,29 @@ def corpus_layouts():
     return out
 
 
-def eval_corpus(rel, mi, li, repeat=1, part=None):
+def share_names(placeholders):
+    """Public calls only: every placeholder of the collection is given the name of the first one
+    (`placeholder.name = first.name`). Returns the number of placeholders renamed."""
+    phs = list(placeholders)
+    for p in phs[1:]:
+        p.name = phs[0].name
+    return max(len(phs) - 1, 0)
+
+
+def eval_corpus(rel, mi, li, repeat=1, part=None, names=None):
+    """names: None (layout as shipped) | 'shared' (before add_slide every placeholder of the layout is renamed to the
+    name of the first one through the public API)."""
     blob = F.read_bytes(os.path.join(F.REPO, rel))
     members = F.zip_members(blob)
     prs = F.open_prs(blob)
     layout = prs.slide_masters[mi].slide_layouts[li]
     lpn = str(layout.part.partname)
     exp = L.layout_exp_from_members(members, lpn)
+    if names == "shared":
+        try:
+            share_names(layout.placeholders)
+        except Exception as e:  # noqa: BLE001
+            return [Failure("layout-rename-raised", [("exc", type(e).__name__)], "layout placeholder.name = ... raised %r" % (e,))], exp
     n0 = len(prs.slides)
     other0 = L.slides_snapshot(prs)
     fails, mem, expected = [], {}, []
@@ -217,6 +253,16 @@ def _work_corpus(part, chunk):
         fails, exp = eval_corpus(rel, mi, li, repeat, part)
         if exp.clone:
             part.add("nontrivial", ("A", rel, mi, li))
+        # the same layout once more with its placeholders renamed to ONE name by public calls; only what the
+        # as-shipped run did not show already is reported from it
+        part.count("evaluations")
+        part.count("corpus_layouts_shared_names")
+        if len(exp.clone) >= 2:
+            part.count("corpus_layouts_shared_names_2plus_clones")
+        shown = {f.sig() for f in fails}
+        fails2, _ = eval_corpus(rel, mi, li, repeat, None, names="shared")
+        _report(part, [f for f in fails2 if f.sig() not in shown], "corpus %s master %d layout %d, placeholders renamed to one name" % (rel, mi, li),
+                {"kind": "corpus", "deck": rel, "master": mi, "layout": li, "repeat": repeat, "names": "shared"})
         for i in exp.clone:
             ph = exp.phs[i]
             part.add("corpus_kinds", (ph["type"], ph["orient"], ph["sz"]))
@@ -277,6 +323,7 @@ _SINGLE_FAILS = {}
 
 def _single_fails(spec, master):
     """Failures of the layout holding only `spec` (memoised per worker): [(rule, attrs)]."""
+    spec = list(spec[:5])   # the failures attributed to a member (raising add_slide / geometry) do not depend on its name
     k = (tuple(spec), master)
     if k not in _SINGLE_FAILS:
         res, _ = eval_gen_batch([[list(spec)]], master)
@@ -345,6 +392,11 @@ def _work_gen(part, chunk):
             part.count("generated_populations_%d" % len(pop))
             if exp.clone:
                 part.count("nontrivial_count")
+            src_names = [exp.phs[i]["name"] for i in exp.clone]
+            if len(set(src_names)) != len(src_names):
+                part.count("dup_source_name_populations")
+            if any(not n for n in src_names):
+                part.count("empty_source_name_populations")
             if any(len(exp.same_idx(i)) > 1 for i in exp.clone):
                 part.count("dup_idx_populations")
                 if _dup_positional_mismatch(exp):
@@ -461,8 +513,10 @@ def _saved_notes_master(members):
     return members[nm[0][1:]] if nm else None
 
 
-def eval_notes(blob, master_blob_hint=None):
-    """New slide from the first layout, then slide.notes_slide; oracle in memory and after save + re-open."""
+def eval_notes(blob, master_blob_hint=None, names=None):
+    """New slide from the first layout, then slide.notes_slide; oracle in memory and after save + re-open.
+    names: None | 'shared' (before the notes slide is made every placeholder of the notes master — the deck's, or the
+    default one the library creates — is renamed to the name of the first one through the public API)."""
     members = F.zip_members(blob)
     prs = F.open_prs(blob)
     had_master = _saved_notes_master(members)
@@ -470,11 +524,18 @@ def eval_notes(blob, master_blob_hint=None):
         slide = prs.slides.add_slide(prs.slide_layouts[0])
     except Exception as e:  # noqa: BLE001
         return [Failure("add-slide-raised", [("type", "first-layout"), ("exc", type(e).__name__)], repr(e))], had_master
+    if names == "shared":
+        try:
+            share_names(prs.notes_master.placeholders)
+        except Exception as e:  # noqa: BLE001
+            return [Failure("notes-master-rename-raised", [("exc", type(e).__name__)], "notes master placeholder.name = ... raised %r" % (e,))], had_master
     try:
         ns = slide.notes_slide
     except Exception as e:  # noqa: BLE001
         return [Failure("notes-raised", [("exc", type(e).__name__)], "slide.notes_slide raised %r" % (e,))], had_master
-    mblob = had_master if had_master is not None else prs.notes_master.part.blob
+    # the expected side is the notes master as it is NOW (bare reading of the part's serialisation): the one of the deck,
+    # the default one the library created, or either of them after the renaming
+    mblob = had_master if (had_master is not None and names is None) else prs.notes_master.part.blob
     fails = check_notes_mirror(ns, mblob)
     if slide.notes_slide.part is not ns.part:
         fails.append(Failure("notes-not-stable", [], "slide.notes_slide returned a different part on second access"))
@@ -506,11 +567,22 @@ def _work_notes(part, chunk):
         fails, mblob = eval_notes(blob)
         if kind == "corpus":
             part.outcome("notes_master", "deck-has-one" if _saved_notes_master(F.zip_members(blob)) is not None else "created-from-template")
-        n = len([p for p in L.read_phs(mblob) if p["type"] in L.NOTES_CLONED]) if mblob else 0
+        cl = [p for p in L.read_phs(mblob) if p["type"] in L.NOTES_CLONED] if mblob else []
+        n = len(cl)
         part.outcome("notes_cloned", str(min(n, 3)))
         if n:
             part.add("nontrivial", ("N", kind, repr(arg)))
+        if len({p["name"] for p in cl}) != n:
+            part.count("notes_dup_source_name_populations")
         _report(part, fails, where, rp)
+        if kind == "corpus":
+            # once more with the notes master's placeholders renamed to ONE name by public calls
+            part.count("evaluations")
+            part.count("notes_evaluations")
+            shown = {f.sig() for f in fails}
+            fails2, _ = eval_notes(blob, names="shared")
+            _report(part, [f for f in fails2 if f.sig() not in shown], where + ", notes-master placeholders renamed to one name",
+                    dict(rp, names="shared"))
 
 
 # ---- run -----------------------------------------------------------------------------------------------------
@@ -535,6 +607,53 @@ def _selfcheck():
         raise HarnessError("evaluation of a fixed batch is not deterministic")
 
 
+def _has_dup_clone_names(pop):
+    names = [G.spec_name(k, sp) for k, sp in enumerate(pop) if G._is_cloned(sp, "slide")]
+    return len(set(names)) != len(names)
+
+
+def _name_prediction(types):
+    """Informational (never a verdict, never a harness error): how often the base-name table of c13_gen predicts the
+    names the library gives to the clones of distinctly named layout / notes-master placeholders. The 'G' and 'O' name
+    letters are as sharp as this table is right."""
+    out = {}
+    pops = [[[t, o, 1, False, None]] for t in types for o in G.ORIENTS if G._is_cloned([t], "slide")]
+    pops += [[["title", None, None, False, None], ["body", "vert", 1, False, None]], [["dt", None, 10, False, None], ["pic", None, 1, False, None]]]
+    hit = n = 0
+    bs = G.batch_size()
+    try:
+        for i in range(0, len(pops), bs):
+            blob, _ = G.build_deck(pops[i:i + bs], "template")
+            prs = F.open_prs(blob)
+            for j, pop in enumerate(pops[i:i + bs]):
+                n += 1
+                try:
+                    got = [p["name"] for p in L.read_phs(prs.slides.add_slide(prs.slide_layouts[j]).part.blob)]
+                except Exception:  # noqa: BLE001
+                    prs = F.open_prs(blob)
+                    continue
+                want = [G.generated_name(pop, k) for k, sp in enumerate(pop) if G._is_cloned(sp, "slide")]
+                hit += got == want
+        out["slide"] = "%d/%d" % (hit, n)
+    except Exception as e:  # noqa: BLE001
+        out["slide"] = "probe raised %s" % type(e).__name__
+    hit = n = 0
+    try:
+        for pop in [[[t, None, 1, False, None]] for t in G.NOTES_CLONED] + [[["sldImg", None, None, False, None], ["hdr", None, 1, False, None], ["body", None, 1, False, None]]]:
+            n += 1
+            prs = F.open_prs(G.build_notes_deck(pop)[0])
+            try:
+                got = [p["name"] for p in L.read_phs(prs.slides.add_slide(prs.slide_layouts[6]).notes_slide.part.blob)]
+            except Exception:  # noqa: BLE001
+                continue
+            want = [G.generated_name(pop, k, "notes") for k, sp in enumerate(pop) if G._is_cloned(sp, "notes")]
+            hit += got == want
+        out["notes"] = "%d/%d" % (hit, n)
+    except Exception as e:  # noqa: BLE001
+        out["notes"] = "probe raised %s" % type(e).__name__
+    return out
+
+
 def run(ctx):
     from mc.props import c13_hist
     types = G.schema_types()
@@ -546,26 +665,42 @@ def run(ctx):
         raise HarnessError("only %d corpus layouts discovered (floor %d)" % (len(layouts), CORPUS_LAYOUT_FLOOR))
     repeat = 2 if ctx.thorough else 1
     fanout(ctx, _work_corpus, ctx.rotate([l + [repeat] for l in layouts]), chunk_size=3)
-    if ctx.counters.get("corpus_layouts") != len(layouts):
-        raise HarnessError("corpus layouts evaluated %r != discovered %d" % (ctx.counters.get("corpus_layouts"), len(layouts)))
+    if ctx.counters.get("corpus_layouts") != len(layouts) or ctx.counters.get("corpus_layouts_shared_names") != len(layouts):
+        raise HarnessError("corpus layouts evaluated %r (+ %r renamed) != discovered %d"
+                           % (ctx.counters.get("corpus_layouts"), ctx.counters.get("corpus_layouts_shared_names"), len(layouts)))
+    if not ctx.counters.get("corpus_layouts_shared_names_2plus_clones"):
+        raise HarnessError("vacuous: no corpus layout with two or more cloneable placeholders to share a name")
 
     # ---- B (singles first so that the minimal witness is the one recorded)
     s_cases, s_n = G.singles(types)
     fanout(ctx, _work_gen, _batches(s_cases, ctx), chunk_size=2)
+    sn_cases, sn_n = G.singles_names(types)
+    fanout(ctx, _work_gen, _batches(sn_cases, ctx), chunk_size=2)
     p_cases, p_n = G.pairs(types, ctx.thorough)
     fanout(ctx, _work_gen, _batches(p_cases, ctx))
-    spaces = {"singles": s_n, "pairs": p_n}
-    total = s_n + p_n
+    pn_cases, pn_n = G.pairs_names(types, ctx.thorough)
+    fanout(ctx, _work_gen, _batches(pn_cases, ctx))
+    spaces = {"singles": s_n, "singles_names": sn_n, "pairs": p_n, "pairs_names": pn_n}
+    total = s_n + sn_n + p_n + pn_n
     if ctx.thorough:
         t_cases, t_n = G.triples(types)
         fanout(ctx, _work_gen, _batches(t_cases, ctx))
+        tn_cases, tn_n = G.triples_names(types)
+        fanout(ctx, _work_gen, _batches(tn_cases, ctx))
         spaces["triples"] = t_n
-        total += t_n
+        spaces["triples_names"] = tn_n
+        total += t_n + tn_n
     got = sum(ctx.counters.get("generated_populations_%d" % k, 0) for k in (1, 2, 3))
     if got != total:
         raise HarnessError("generated populations evaluated %d != closed form %d" % (got, total))
     ctx.extra["spaces"] = spaces
     ctx.extra["placeholder_types"] = ["(absent)"] + types[1:]
+    ctx.extra["name_vectors"] = {"singles": G.SINGLE_NAME_VECTORS, "pairs": G.PAIR_NAME_VECTORS, "triples": G.TRIPLE_NAME_VECTORS}
+    ctx.extra["generated_name_prediction"] = _name_prediction(types)
+    want_dup = len([1 for p, _ in sn_cases + pn_cases + (tn_cases if ctx.thorough else []) if _has_dup_clone_names(p)])
+    if ctx.counters.get("dup_source_name_populations", 0) != want_dup or not want_dup:
+        raise HarnessError("populations whose cloneable placeholders share a name: evaluated %r, generated %d"
+                           % (ctx.counters.get("dup_source_name_populations"), want_dup))
 
     # state after a raising add_slide (informational, C02 territory): one probe per distinct raising single type
     probes = {}
@@ -578,13 +713,20 @@ def run(ctx):
     n_items = [("corpus", F.corpus_name(p)) for p in F.corpus()]
     ns_cases, ns_n = G.notes_singles(types)
     np_cases, np_n = G.notes_pairs(ctx.thorough)
-    n_items += [("gen", p) for p in ns_cases + np_cases]
+    nsn_cases, nsn_n = G.notes_singles_names(types)
+    npn_cases, npn_n = G.notes_pairs_names(ctx.thorough)
+    n_items += [("gen", p) for p in ns_cases + np_cases + nsn_cases + npn_cases]
     fanout(ctx, _work_notes, ctx.rotate(n_items))
-    if ctx.counters.get("notes_evaluations") != len(F.corpus()) + ns_n + np_n:
-        raise HarnessError("notes evaluations %r != %d" % (ctx.counters.get("notes_evaluations"), len(F.corpus()) + ns_n + np_n))
+    n_total = 2 * len(F.corpus()) + ns_n + np_n + nsn_n + npn_n
+    if ctx.counters.get("notes_evaluations") != n_total:
+        raise HarnessError("notes evaluations %r != %d" % (ctx.counters.get("notes_evaluations"), n_total))
+    if not ctx.counters.get("notes_dup_source_name_populations"):
+        raise HarnessError("vacuous: no generated notes master whose cloned placeholders share a name")
     ctx.extra["spaces"]["notes_master_singles"] = ns_n
     ctx.extra["spaces"]["notes_master_pairs"] = np_n
-    ctx.extra["spaces"]["notes_corpus_decks"] = len(F.corpus())
+    ctx.extra["spaces"]["notes_master_singles_names"] = nsn_n
+    ctx.extra["spaces"]["notes_master_pairs_names"] = npn_n
+    ctx.extra["spaces"]["notes_corpus_decks_x_names"] = 2 * len(F.corpus())
 
     # ---- C
     c13_hist.run(ctx)
@@ -597,7 +739,7 @@ def run(ctx):
 def replay(data):
     k = data["kind"]
     if k == "corpus":
-        fails, _ = eval_corpus(data["deck"], data["master"], data["layout"], data.get("repeat", 1))
+        fails, _ = eval_corpus(data["deck"], data["master"], data["layout"], data.get("repeat", 1), names=data.get("names"))
         return _match(fails, data)
     if k == "gen":
         res, _ = eval_gen_batch([data["pop"]], data["master"])
@@ -607,7 +749,7 @@ def replay(data):
         i = data["index"]
         return _match(_attribute(data["pops"][i], data["master"], res[i]), data)
     if k == "notes-corpus":
-        fails, _ = eval_notes(F.read_bytes(os.path.join(F.REPO, data["deck"])))
+        fails, _ = eval_notes(F.read_bytes(os.path.join(F.REPO, data["deck"])), names=data.get("names"))
         return _match(fails, data)
     if k == "notes-gen":
         fails, _ = eval_notes(G.build_notes_deck(data["pop"])[0])
